@@ -23,6 +23,9 @@ var (
 	removeGEREventSignature = crypto.Keccak256Hash([]byte("UpdateRemovalHashChainValue(bytes32,bytes32)"))
 )
 
+// maxBlocksPerEventsRequest bounds the block range of a single events query while catching up with the chain
+const maxBlocksPerEventsRequest = 1000
+
 type downloaderPP struct {
 	*sync.EVMDownloaderImplementation
 	l2GERManager   *globalexitrootmanagerl2sovereignchain.Globalexitrootmanagerl2sovereignchain
@@ -89,11 +92,23 @@ func (d *downloaderPP) Download(ctx context.Context, fromBlock uint64, downloade
 		default:
 		}
 
-		// Wait for new blocks before processing
-		fromBlock = d.WaitForNewBlocks(ctx, fromBlock)
-		for _, block := range d.GetEventsByBlockRange(ctx, fromBlock, fromBlock) {
+		// Wait until the chain reaches fromBlock. The chain may have advanced by more than one block since
+		// the last poll (or while the node was down): every block from fromBlock on is scanned, not only the tip
+		lastSyncedBlock := uint64(0)
+		if fromBlock > 0 {
+			lastSyncedBlock = fromBlock - 1
+		}
+		toBlock := d.WaitForNewBlocks(ctx, lastSyncedBlock)
+		if toBlock < fromBlock {
+			continue // no new block (the context has been cancelled)
+		}
+		if toBlock-fromBlock >= maxBlocksPerEventsRequest {
+			toBlock = fromBlock + maxBlocksPerEventsRequest - 1
+		}
+		for _, block := range d.GetEventsByBlockRange(ctx, fromBlock, toBlock) {
 			downloadedCh <- *block
 		}
+		fromBlock = toBlock + 1
 	}
 }
 
